@@ -23,6 +23,7 @@ func extractStages() {
 	s.boolean("preExcludeShape", strings.Contains(ps, excl))
 	extractScope(s)
 	extractPostEarly(s)
+	extractGuards(s)
 	s.boolean("preIncludeBeforeExclude", strings.Index(ps, incl) >= 0 && strings.Index(ps, incl) < strings.Index(ps, excl))
 	reject := "ifitems[i].IsChild()||items[i].IsRedirection(){items[i].GetParent().RemoveChild(items[i])continue}items[i].SetStatus(models.ItemCompleted)return}"
 	s.boolean("preRejectRemovesChildCompletesSeed", strings.Count(ps, reject) == 2)
